@@ -9,7 +9,7 @@ from vlib.core import Prop, Sub, Violation, calling, check
 from vlib.oracles import bvls, lp_dist
 from vlib.systems import NOMINAL_RANGE, Sys, matrix_system, target_rows
 
-HIGH_ACC = dict(solver="CLARABEL", tol_gap_abs=1e-11, tol_gap_rel=1e-11, tol_feas=1e-11, max_iter=500)
+HIGH_ACC = dict(solver="CLARABEL", tol_gap_abs=1e-9, tol_gap_rel=1e-9, tol_feas=1e-9, max_iter=500)
 TOL = {"default": dict(cap=2e-2, frac=1e-2), "high": dict(cap=2e-3, frac=1e-6)}
 
 
